@@ -64,6 +64,7 @@ pub struct ZarrTraceStorage {
     param_types: Vec<(String, ItemType)>,
     draw_types: Vec<(String, ItemType)>,
     event_dim_of_stat: HashMap<String, String>,
+    store_warmup: bool,
 }
 
 /// Per-chain storage for Zarr MCMC traces
@@ -75,6 +76,7 @@ pub struct ZarrChainStorage {
     last_sample_was_warmup: bool,
     event_dim_of_stat: HashMap<String, String>,
     warmup_event_counts: HashMap<String, u64>,
+    store_warmup: bool,
 }
 
 /// Write a chunk of data to a Zarr array
@@ -163,6 +165,7 @@ impl ZarrChainStorage {
         buffer_size: u64,
         chain: u64,
         event_dim_of_stat: HashMap<String, String>,
+        store_warmup: bool,
     ) -> Self {
         let draw_buffers = draw_types
             .iter()
@@ -181,6 +184,7 @@ impl ZarrChainStorage {
             last_sample_was_warmup: true,
             event_dim_of_stat,
             warmup_event_counts: HashMap::new(),
+            store_warmup,
         }
     }
 
@@ -233,6 +237,9 @@ impl ChainStorage for ZarrChainStorage {
         draws: Vec<(&str, Option<Value>)>,
         info: &Progress,
     ) -> Result<()> {
+        if !self.store_warmup && info.tuning {
+            return Ok(());
+        }
         let is_first_draw = self.last_sample_was_warmup && !info.tuning;
         if is_first_draw {
             {
@@ -449,7 +456,12 @@ impl StorageConfig for ZarrConfig {
 
     fn new_trace<M: Math>(self, settings: &impl Settings, math: &M) -> Result<Self::Storage> {
         let n_chains = settings.num_chains() as u64;
-        let n_tune = settings.hint_num_tune() as u64;
+        // Without `store_warmup` the warmup arrays stay empty.
+        let n_tune = if self.store_warmup {
+            settings.hint_num_tune() as u64
+        } else {
+            0
+        };
         let n_draws = settings.hint_num_draws() as u64;
 
         let param_types = settings.stat_types(math);
@@ -486,6 +498,7 @@ impl StorageConfig for ZarrConfig {
         }
         let store = self.store;
         let draw_chunk_size = self.draw_chunk_size;
+        let store_warmup = self.store_warmup;
 
         let mut root = GroupBuilder::new().build(store.clone(), &group_path)?;
 
@@ -614,6 +627,7 @@ impl StorageConfig for ZarrConfig {
             draw_types,
             draw_chunk_size,
             event_dim_of_stat,
+            store_warmup,
         })
     }
 }
@@ -631,6 +645,7 @@ impl TraceStorage for ZarrTraceStorage {
             self.draw_chunk_size,
             chain_id as _,
             self.event_dim_of_stat.clone(),
+            self.store_warmup,
         ))
     }
 
